@@ -157,6 +157,12 @@ func simpleTypedValue(r *rand.Rand, d map[string]interface{}, wrong float64) int
 		if e, ok := d["enum"].([]interface{}); ok && r.Intn(3) == 0 {
 			lit = fmt.Sprint(e[r.Intn(len(e))])
 		}
+		// the value sitting exactly on a declared bound (inclusive / exclusive boundary), in every kind that can carry it
+		for _, k := range []string{"minimum", "maximum"} {
+			if b, ok := d[k]; ok && r.Intn(4) == 0 {
+				lit = fmt.Sprint(b)
+			}
+		}
 		cs := carriers(lit, r)
 		if len(cs) == 0 {
 			cs = carriers("7", r)
